@@ -932,7 +932,11 @@ func modhex(r *ev.Run, pool [][]byte) {
 	}
 	// missing extension
 	if c := r.Case("serial-missing", 0); c != nil {
-		for _, exts := range [][]pkix.Extension{nil, {{Id: oid(1, 3, 6, 1, 4, 1, 41482, 3, 3), Value: []byte{5, 4, 3}}}, {{Id: oid(1, 3, 6, 1, 4, 1, 41482, 3, 70), Value: derInt([]byte{1, 2, 3})}}} {
+		// other identifiers — the firmware extension, a sibling arc, arcs BELOW and ABOVE the serial extension's, a longer
+		// and a shorter look-alike — are not the serial extension
+		for _, exts := range [][]pkix.Extension{nil, {{Id: oid(1, 3, 6, 1, 4, 1, 41482, 3, 3), Value: []byte{5, 4, 3}}}, {{Id: oid(1, 3, 6, 1, 4, 1, 41482, 3, 70), Value: derInt([]byte{1, 2, 3})}},
+			{{Id: oid(1, 3, 6, 1, 4, 1, 41482, 3, 7, 1), Value: derInt([]byte{1, 2, 3, 4})}}, {{Id: oid(1, 3, 6, 1, 4, 1, 41482, 3, 7, 0), Value: derInt([]byte{1, 2, 3})}}, {{Id: oid(1, 3, 6, 1, 4, 1, 41482, 3), Value: derInt([]byte{1, 2, 3, 4})}},
+			{{Id: oid(1, 3, 6, 1, 4, 1, 41482, 3, 7, 7, 7), Value: derInt([]byte{9, 9, 9})}}, {{Id: oid(1, 3, 6, 1, 4, 1, 41482, 4, 7), Value: derInt([]byte{1, 2, 3, 4})}}, {{Id: oid(2, 3, 6, 1, 4, 1, 41482, 3, 7), Value: derInt([]byte{1, 2, 3, 4})}}} {
 			r.Eval(1)
 			r.Guard(c, "ModHex(missing)", nil, func() {
 				if s, err := yubiattest.ModHex(&x509.Certificate{Extensions: exts}); err == nil {
@@ -941,6 +945,23 @@ func modhex(r *ev.Run, pool [][]byte) {
 					r.Count("missing serial extension -> error", 1)
 				}
 			})
+		}
+	}
+	// the serial extension next to look-alikes (before and after it): the serial is the serial extension's
+	if c := r.Case("serial-beside-lookalikes", 0); c != nil {
+		real := pkix.Extension{Id: oid(1, 3, 6, 1, 4, 1, 41482, 3, 7), Value: derInt([]byte{0x00, 0xab, 0xcd, 0xef})}
+		want := refModHex([]byte{0x00, 0xab, 0xcd, 0xef})
+		for _, other := range []pkix.Extension{{Id: oid(1, 3, 6, 1, 4, 1, 41482, 3, 7, 1), Value: derInt([]byte{1, 2, 3, 4})}, {Id: oid(1, 3, 6, 1, 4, 1, 41482, 3, 70), Value: derInt([]byte{1, 2, 3})}, {Id: oid(1, 3, 6, 1, 4, 1, 41482, 3), Value: derInt([]byte{5, 6, 7})}} {
+			for _, exts := range [][]pkix.Extension{{real, other}, {other, real}, {other, real, other}} {
+				r.Eval(1)
+				r.Guard(c, "ModHex(look-alikes)", nil, func() {
+					if s, err := yubiattest.ModHex(&x509.Certificate{Extensions: exts}); err != nil || s != want {
+						r.Violation(c, "modhex-wrong-value:beside-a-look-alike-extension", fmt.Sprintf("extensions %v: got %q err=%v, want %q", exts, s, err, want), nil)
+					} else {
+						r.Count("serial extension beside look-alike identifiers -> the serial extension's value", 1)
+					}
+				})
+			}
 		}
 	}
 	// sampled serials: equality with the reference implies injectivity; the set check is explicit anyway
